@@ -186,16 +186,10 @@ theorem rotateRows_orthonormal {M : Mat} {m n : Nat} (hM : Rect M m n) {G : G2} 
 
 theorem givensElems_unitary (tol : Rat) (htol : 0 < tol) (a b : GQ) (right : Bool) (G : G2)
     (hexa : small tol a = true → a = 0) (hexb : small tol b = true → b = 0)
-    (hreal : realish tol a b = true → a.im = 0 ∧ b.im = 0)
+    (hreal : RealExact tol a b)
     (h : givensElems tol a b right = .ok G) : G.Unitary := by
-  unfold givensElems at h
-  cases hC : cosSinPhase tol a b with
-  | error e => simp [hC, bind, Except.bind] at h
-  | ok t =>
-    obtain ⟨c, s, ph⟩ := t
-    simp only [hC, bind, Except.bind] at h
-    injection h with h; subst h
-    exact assemble_unitary (cosSinPhase_spec htol hexa hexb hC) right _ hreal
+  obtain ⟨c, s, ph, hC, hr, rfl⟩ := givensElems_inv hreal h
+  exact assemble_unitary (cosSinPhase_spec htol hexa hexb hC) right _ hr
 
 /-- the left-unitary stage keeps the rows of the matrix orthonormal -/
 theorem leftStage_orthonormal (tol : Rat) (htol : 0 < tol) (m n : Nat) :
